@@ -13,6 +13,9 @@ import (
 type c09Case struct {
 	Root []MNode `json:"root"`
 	Ctx  Val     `json:"ctx"`
+	// a second context: the same compiled template is rendered with Ctx, Ctx2 and Ctx again, and
+	// every rendering must agree with the reference ("within one fresh render": nothing survives)
+	Ctx2 *Val `json:"ctx2,omitempty"`
 }
 
 type c09Gen struct {
@@ -233,6 +236,23 @@ func checkC09(c any, r *Rec) error {
 	if got != want {
 		return fmt.Errorf("control flow differs from the reference interpreter\n got  %q\n want %q\n src=%q\n ctx=%s", got, want, src, descVal(cs.Ctx))
 	}
+	if cs.Ctx2 != nil {
+		ctxs := []Val{cs.Ctx, *cs.Ctx2, cs.Ctx}
+		outs, errs, cerr := mmEngineSeq(cs.Root, nil, empty, ctxs)
+		if cerr != nil {
+			return fmt.Errorf("second compilation fails: %v", cerr)
+		}
+		for i, c := range ctxs {
+			w, we := mmReference(cs.Root, nil, empty, c)
+			if we != nil {
+				break
+			}
+			if errs[i] != nil || outs[i] != w {
+				return fmt.Errorf("rendering %d of one compiled template (contexts A, B, A) differs from the reference\n got  %q (err %v)\n want %q\n src=%q\n ctx=%s", i+1, outs[i], errs[i], w, src, descVal(c))
+			}
+		}
+		r.Class("three-renderings")
+	}
 	for _, tag := range []string{"{% if", "{% elif", "{% ifequal", "{% ifnotequal", "{% firstof", "{% for", "{% empty", "{% cycle", "{% ifchanged", "reversed", "sorted", "Parentloop"} {
 		if strings.Contains(src, tag) {
 			r.Class(strings.TrimPrefix(tag, "{% "))
@@ -271,7 +291,12 @@ var _ = register(&propSpec{
 		for i := drawInt(t, 1, 4, "nroot"); i > 0; i-- {
 			root = append(root, g.node(4))
 		}
-		return &c09Case{Root: root, Ctx: c09Ctx(t)}
+		cs := &c09Case{Root: root, Ctx: c09Ctx(t)}
+		if drawBool(t, "second") {
+			c2 := c09Ctx(t)
+			cs.Ctx2 = &c2
+		}
+		return cs
 	},
 	New:   func() any { return &c09Case{} },
 	Check: checkC09,
